@@ -82,6 +82,11 @@ func child(mode string, in json.RawMessage) any {
 			out.Porc["seq-agrees"]++
 		} else {
 			out.Porc["seq-diverges"]++
+			if strings.HasPrefix(run.div.Class, "atomicity:") { // schedule dependent: reported as it is
+				out.add(finding{Sig: run.div.Class, Detail: "single client, " + engineName(s.Engine) + ": " + run.div.Text,
+					Witness: map[string]any{"script": s, "trace": lines(run.trace)}})
+				return out
+			}
 			ms, mr := shrink(s, run.div)
 			if mr.div == nil {
 				mr, ms = run, s
